@@ -57,8 +57,21 @@ func runGo(c *cpuCase) string {
 	b := bus.NewSparse(c.Mem, c.Budget)
 	p.Init(b)
 	p.SP, p.A, p.X, p.Y, p.Flags = c.R.SP, c.R.A, c.R.X, c.R.Y, c.R.P
-	err := p.RunExt(c.R.PC, true)
+	var err error
+	crashed := false
+	func() {
+		// a panic that escapes RunExt's own recover would kill a real host process
+		defer func() {
+			if r := recover(); r != nil {
+				crashed = true
+			}
+		}()
+		err = p.RunExt(c.R.PC, true)
+	}()
 	kind := classify(err)
+	if crashed {
+		kind = "hostcrash"
+	}
 	return fmt.Sprintf("%s %04x %02x %02x %02x %02x %02x %d | %s", kind, p.PC, p.SP, p.A, p.X, p.Y, p.Flags, p.NumCycles(),
 		bus.TraceString(b.Trace))
 }
@@ -315,4 +328,63 @@ func parseRequest(req string) (*cpuCase, bool) {
 		}
 	}
 	return c, true
+}
+
+// cpuRuns: several RunExt calls on one CPU, with and without resetting the cycle counter (what
+// TestCase.Execute does for test iterations): the reported total after each run is compared.
+func cpuRuns(seed uint64, n int) {
+	root := rng.New(seed + 77)
+	simple := [][]uint8{{0xEA}, {0xE8}, {0xC8}, {0x18}, {0xA9, 0x11}, {0x69, 0x01}, {0x85, 0x10}, {0xA5, 0x10}, {0xE6, 0x20},
+		{0xBD, 0xF0, 0x20}, {0xD0, 0x00}, {0x4C}}
+	for i := 0; i < n; i++ {
+		r := root.Fork()
+		model := r.Intn(2)
+		mem := map[uint16]uint8{}
+		nseg := 2 + r.Intn(3)
+		starts := []uint16{}
+		for sg := 0; sg < nseg; sg++ {
+			base := uint16(0x0800 + sg*0x100)
+			starts = append(starts, base)
+			a := base
+			for k := 0; k < 1+r.Intn(5); k++ {
+				ins := simple[r.Intn(len(simple))]
+				if ins[0] == 0x4C {
+					// JMP to the next byte after the instruction
+					mem[a] = 0x4C
+					mem[a+1] = uint8((a + 3) & 0xFF)
+					mem[a+2] = uint8((a + 3) >> 8)
+					a += 3
+					continue
+				}
+				for _, bb := range ins {
+					mem[a] = bb
+					a++
+				}
+			}
+			mem[a] = 0x00
+		}
+		model65 := cpu.Model6502
+		if model == 1 {
+			model65 = cpu.Model65C02
+		}
+		p := cpu.New6502(model65)
+		b := bus.NewSparse(mem, 4000)
+		p.Init(b)
+		p.X = r.Byte()
+		x0 := p.X
+		var runs, outs []string
+		for k := 0; k < 2+r.Intn(5); k++ {
+			pc := starts[r.Intn(len(starts))]
+			reset := r.Chance(30)
+			err := p.RunExt(pc, reset)
+			rs := 0
+			if reset {
+				rs = 1
+			}
+			runs = append(runs, fmt.Sprintf("%04x:%d", pc, rs))
+			outs = append(outs, fmt.Sprintf("%s:%d", classify(err), p.NumCycles()))
+		}
+		count("runs")
+		emit(fmt.Sprintf("runs %d %02x | %s | %s => %s", model, x0, bus.MemString(mem), strings.Join(runs, " "), strings.Join(outs, " ")))
+	}
 }
